@@ -22,6 +22,7 @@ the propose()/feedback() calls that were made on it.
 import ast
 import collections
 import itertools
+import logging
 import random
 import threading
 import traceback
@@ -43,11 +44,15 @@ TIERS = {
 LEVEL = 'exploration'
 EXHAUSTIVE = {'quick': False, 'thorough': False}
 RULE = ('case = one sampling session = (workers 2..8, group assignment with 1..4 '
-        'groups incl. co-workers or one group per worker, N=4..20, algorithm in '
+        'groups incl. co-workers or one group per worker, group ids drawn from the documented '
+        'domain int|str (names, 0..g-1, signed/large ints, strings incl. the empty one, mixed; '
+        'the falsy ids 0 and \'\' on purpose) or None, N=4..20, iterations per trial: one | '
+        'per trial 0..3 extra deliveries that only report a measurement or nothing before the '
+        'finishing one | every trial takes m=2..6 iterations (progressive evaluation), algorithm in '
         '{Random, Sweeping, regularized evolution(population 3), the same evolution '
         'started after the first feedback}, per-worker plan '
-        'of done / multi-measurement done / feedback(reward) / skip / early-stop '
-        'probe, optional end_loop, early-stopping policy or none, start mode '
+        'of done / multi-measurement done(metadata) / feedback(reward) / skip / skip by '
+        'skip_on_exceptions / early-stop probe, optional end_loop, early-stopping policy or none, start mode '
         'simultaneous|staggered, schedule seed with switch probability and PCT '
         'change points). The session runs once under that schedule; the offline '
         'checker evaluates every clause on the recorded client history. '
@@ -70,10 +75,13 @@ REQUIRED_COUNTERS = ['sessions', 'sessions_token', 'sessions_free', 'switches',
                      'sessions_simultaneous', 'sessions_staggered',
                      'sessions_window', 'window_policy_switches',
                      'check:algorithm-tally', 'tally_feedbacks_checked',
-                     'sessions_first_two_feedbacks_in_overlapping_done_calls']
+                     'sessions_first_two_feedbacks_in_overlapping_done_calls',
+                     'sessions_with_redelivery', 'trials_redelivered_to_their_worker',
+                     'groups_with_co-workers_and_falsy_id_checked']
 ASSUMPTIONS = [
     'interleavings are sampled at statement granularity (LINE events) inside pyglove/core/tuning/*, geno/dna_generator.py, geno/random.py, geno/sweeping.py, geno/deduping.py and ext/evolution/base.py; switches inside C code or between bytecodes of one statement are not explored',
-    'every worker finishes (done or skip) each trial it is handed and rewards are a function of the DNA, so co-workers report the same reward',
+    'every worker keeps iterating until its loop ends and finishes (done or skip) each trial it is handed, at the first or at a later delivery of that trial (unless a co-worker finished it or end_loop was called meanwhile); rewards are a function of the DNA, so co-workers report the same reward',
+    'group ids are ints and strs (the documented type of `group`); an int and its decimal string are not used as two ids of one session',
     'the space is larger than N (an exhausted Sweeping is not generated); the in-memory backend only',
     'a trial is identified by the unique proposal number the recording generator attaches to the DNA it returns (public DNA.set_userdata)',
     'a worker "holds" a pending trial from the moment next() returned it until the first done()/skip() call on that trial by anybody starts (conservative on both ends)',
@@ -96,7 +104,71 @@ SPACE = pg.Dict(a=pg.oneof([1, 2, 3, 4]), b=pg.oneof([1, 2, 3]), c=pg.oneof([1, 
 # backend even sequentially (it compares the freshly built DNASpec with `!=`),
 # which is not a statement about schedules and is therefore not generated.
 
-ACTIONS = ['done', 'done', 'done2', 'call', 'skip', 'early']
+ACTIONS = ['done', 'done', 'done2', 'call', 'skip', 'early', 'skipx']
+
+# `Feedback.skip_on_exceptions` reports the skipped trial with a warning; the
+# sessions hand the library a silent logger (public pg.logging.set_logger).
+_QUIET = logging.getLogger('pgverif.c16.quiet')
+_QUIET.disabled = True
+pg.logging.set_logger(_QUIET)
+
+
+class EvaluationFailed(Exception):
+  """Raised by the harness' evaluation code inside `skip_on_exceptions`."""
+
+
+# Group ids: `group` of pg.sample is documented as Union[None, int, str]; every
+# int and every str is a legal id, the falsy ones (0, '') included.  An int and
+# the str of the same int are never used in one session (whether they name the
+# same group is not documented), nor are long digit strings (the in-memory
+# backend's private ids for group=None look like that).
+_INT_IDS = [0, 0, -1, 1, 2, -7, 255, 10 ** 12, -2 ** 40]
+_STR_IDS = ['', '', ' ', 'a', 'A', 'None', 'g/1', 'w.0', '\u00e9', 'False']
+
+
+def gen_group_ids(rng, g):
+  """g distinct legal group ids of one session; returns (kind, ids)."""
+  kind = rng.choice(['named', 'range', 'range', 'ints', 'strings', 'mixed'])
+  if kind == 'named':
+    ids = [f'g{i}' for i in range(g)]
+  elif kind == 'range':
+    ids = list(range(g))                    # worker_index // workers_per_group
+  elif kind == 'ints':
+    ids = rng.sample(sorted(set(_INT_IDS)), g)
+  elif kind == 'strings':
+    ids = rng.sample(sorted(set(_STR_IDS)), g)
+  else:
+    ids = rng.sample([0, -1, 3, '', 'w', 'None', ' '], g)
+  if kind != 'named' and rng.random() < 0.6 and not any(x in (0, '') for x in ids):
+    ids[rng.randrange(g)] = rng.choice([0, ''] if kind == 'mixed' else
+                                       [0] if isinstance(ids[0], int) else [''])
+  return kind, ids
+
+
+def is_falsy_id(g):
+  return g is not None and not g
+
+
+def gen_defers(rng, w, n):
+  """Per worker and per trial ordinal: (deliveries before the finishing one, what they do).
+
+  A trial that was neither done() nor skip()ped is handed to the worker again
+  by its next iteration (documented failover behaviour of pg.sample), so an
+  evaluation may take several iterations: report a measurement and `continue`
+  (progressive evaluation), or `continue` without having reported anything
+  (retry after a transient error).  Returns (style, n, defers).
+  """
+  style = rng.choice(['single'] * 4 + ['some'] * 3 + ['progressive'] * 3)
+  if style == 'single':
+    return style, n, None
+  if style == 'some':
+    return style, n, [[(rng.choice([0, 0, 0, 1, 1, 2, 3]),
+                        rng.choice(['measure', 'measure', 'nothing']))
+                       for _ in range(n + 2)] for _ in range(w)]
+  m = rng.randint(2, 6)                      # iterations per trial, every trial
+  n = rng.randint(4, max(4, 30 // m))
+  kind = rng.choice(['measure', 'measure', 'measure', 'nothing'])
+  return style, n, [[(m - 1, kind)] * (n + 2) for _ in range(w)]
 
 
 def reward_of(nums):
@@ -195,9 +267,13 @@ def gen_config(rng, mode):
     groups = [None] * w                      # group=None: every worker its own group
   else:
     g = rng.randint(1, min(4, w))
-    groups = [f'g{i % g}' for i in range(w)]
+    _, gids = gen_group_ids(rng, g)
+    groups = [gids[i % g] for i in range(w)]
     rng.shuffle(groups)
+    if w > 2 and rng.random() < 0.2:
+      groups[rng.randrange(w)] = None        # a worker without group next to groups
   n = rng.randint(4, 20)
+  iterations, n, defers = gen_defers(rng, w, n)
   plans = []
   style = rng.choice(['mixed', 'mixed', 'mixed', 'all-done', 'skip-heavy'])
   for _ in range(w):
@@ -213,6 +289,7 @@ def gen_config(rng, mode):
     end_loop = (rng.randrange(w), rng.randint(1, max(1, n // 2)))   # worker, after its k-th trial
   return dict(
       workers=w, groups=groups, n=n, plans=plans, end_loop=end_loop,
+      iterations=iterations, defers=defers,
       algorithm=rng.choice(['random', 'sweeping', 'evolution', 'evolution', 'evolution-init1']),
       algo_seed=rng.randint(0, 99),
       policy=rng.choice([None, None, 3.0, 6.0]),
@@ -242,10 +319,11 @@ def gen_window_config(rng):
   if layout == 'solo':
     groups = [None] * w
   elif layout == 'distinct':
-    groups = [f'g{i}' for i in range(w)]
+    groups = gen_group_ids(rng, w)[1]
   else:
     g = rng.randint(1, max(1, w - 1))
-    groups = [f'g{i % g}' for i in range(w)]
+    gids = gen_group_ids(rng, g)[1]
+    groups = [gids[i % g] for i in range(w)]
     rng.shuffle(groups)
   per = rng.randint(1, 3)
   n = w * per + rng.choice([0, 0, 1])
@@ -295,7 +373,10 @@ def gen_window_config(rng):
 
 
 def horizon_of(cfg):
-  return 150 * cfg['n'] + 120 * cfg['workers']
+  per_trial = 1
+  if cfg.get('defers'):
+    per_trial = 1 + max(d[0] for d in cfg['defers'][0]) // 2
+  return 150 * cfg['n'] * per_trial + 120 * cfg['workers']
 
 
 class Rendezvous:
@@ -368,7 +449,7 @@ class Session:
 
   def group_label(self, i):
     g = self.cfg['groups'][i]
-    return g if g is not None else f'solo{i}'
+    return repr(g) if g is not None else f'solo{i}'
 
   def _open_window(self, tag, members):
     self.inside[tag] = set(members)
@@ -418,6 +499,11 @@ class Session:
         pre_finish()
         client_call('skip', pid, fb.skip)
         return
+      if action == 'skipx':
+        # the evaluation code fails inside the documented skip_on_exceptions scope
+        pre_finish()
+        client_call('skip', pid, lambda: _fail_inside_skip_scope(fb), 'skip_on_exceptions')
+        return
       if client_call('measure', pid, lambda: fb.add_measurement(reward, step=1),
                      'add_measurement'):
         pre_finish()
@@ -442,7 +528,10 @@ class Session:
           pre_finish()
           return
       pre_finish()
-      client_call('done', pid, fb.done)
+      if action == 'done2':
+        client_call('done', pid, lambda: fb.done(metadata={'steps': 2, 'worker': f'w{i}'}))
+      else:
+        client_call('done', pid, fb.done)
 
     sync_at = self.rendezvous
     sync_where = cfg.get('sync_where', 'act')
@@ -457,9 +546,12 @@ class Session:
       it = iter(pg.sample(self.space, self.algorithm, num_examples=cfg['n'],
                           name=self.name, group=cfg['groups'][i],
                           early_stopping_policy=self.policies[i]))
-      k = 0
+      defers = (cfg.get('defers') or [None] * cfg['workers'])[i]
+      seen = {}                      # proposal -> [ordinal among this worker's trials, deliveries]
+      it_no = 0                      # iterations (deliveries) of this worker
+      acted = 0                      # finishing attempts of this worker
       while True:
-        log.append((stamp(), 'next-call', k))
+        log.append((stamp(), 'next-call', it_no))
         try:
           _, fb = next(it)
         except StopIteration:
@@ -467,7 +559,7 @@ class Session:
           self._leave_window('start', i)
           break
         except Exception as e:  # pylint: disable=broad-except
-          log.append((stamp(), 'next-raise', k, type(e).__name__,
+          log.append((stamp(), 'next-raise', it_no, type(e).__name__,
                       traceback.format_exc()[-2500:]))
           self._leave_window('start', i)
           break
@@ -476,24 +568,43 @@ class Session:
         nums = tuple(dna.to_numbers())
         tid = fb.id
         log.append((stamp(), 'got', tid, pid, nums))
-        if k == 0:
+        if it_no == 0:
           sc.enable_switching()        # staggered start: the first trial is held
           self._leave_window('start', i)
-        action = plan[k % len(plan)]
-        if k in sync_at:
+        it_no += 1
+        ent = seen.get(pid)
+        if ent is None:
+          ent = seen[pid] = [len(seen), 0]
+        ent[1] += 1
+        k = ent[0]                     # this is the worker's trial number k
+        wait, how = defers[k % len(defers)] if defers else (0, '')
+        if ent[1] <= wait:
+          # The evaluation of this trial takes several iterations: the trial is
+          # left pending and is handed out again by the next iteration.
+          log.append((stamp(), 'defer', pid, ent[1]))
+          if how == 'measure':
+            client_call('measure', pid,
+                        lambda: fb.add_measurement(reward_of(nums), step=100 + ent[1]),
+                        'add_measurement')
+          continue
+        attempt = ent[1] - wait        # > 1: handed out again after a finishing attempt
+        if attempt > 4:
+          log.append((stamp(), 'stuck', pid))
+          break
+        action = plan[k % len(plan)] if attempt == 1 else 'done'
+        if k in sync_at and attempt == 1:
           if sync_where == 'act':
             meet(k)
             act(action, fb, pid, reward_of(nums))
           else:
             act(action, fb, pid, reward_of(nums), lambda k=k: meet(k))
           self._leave_window(f'finish-{k}', i)
-          k += 1
         else:
-          k += 1
           act(action, fb, pid, reward_of(nums))
-        if cfg['end_loop'] is not None and cfg['end_loop'] == (i, k):
+        acted += 1
+        if cfg['end_loop'] is not None and cfg['end_loop'] == (i, acted):
           client_call('end_loop', pid, fb.end_loop)
-      return k
+      return it_no
 
     return worker
 
@@ -501,6 +612,11 @@ class Session:
 def _ignore_race(fb, fn):
   with fb.ignore_race_condition():
     fn()
+
+
+def _fail_inside_skip_scope(fb):
+  with fb.skip_on_exceptions((EvaluationFailed,)):
+    raise EvaluationFailed()
 
 
 # ---------------------------------------------------------------------------
@@ -632,10 +748,20 @@ def check_session(sess, counters):
     bad('ids', 'duplicate-id', f'trial ids {dup} used more than once: {ids}')
   elif sorted(ids) != list(range(1, len(ids) + 1)):
     bad('ids', 'gap', f'trial ids are not 1..{len(ids)}: {ids}')
+  # Harness fact: some worker was handed the same trial by more than one of
+  # its iterations (it left the trial pending and came back for it).
+  redelivered = sorted(p for p, gs in got.items()
+                       if len({g[1] for g in gs}) < len(gs))
+  c['trials_redelivered_to_their_worker'] += len(redelivered)
+  c['sessions_with_redelivery'] += bool(redelivered)
+  rtag = '@redelivery' if redelivered else ''
   if len(ids) > n:
     bad('ids', 'too-many', f'{len(ids)} trials for num_examples={n}: {ids}')
   elif len(ids) < n and not end_loop_called and not died:
-    bad('ids', 'too-few', f'{len(ids)} trials for num_examples={n} without end_loop: {ids}')
+    bad('ids', 'too-few' + rtag,
+        f'{len(ids)} trials for num_examples={n} without end_loop: {ids}; every worker '
+        f'iterated until its loop ended; deliveries per worker '
+        f'{sorted(collections.Counter(g[1] for gs in got.values() for g in gs).items())}')
   for p, ts in by_pid.items():
     if p is None or len(ts) > 1:
       bad('ids', 'proposal-shared',
@@ -719,10 +845,18 @@ def check_session(sess, counters):
   tag = '@same-group-finish' if finish_race else ''
   c['check:quiescence'] += 1
   if not died:
-    pending = [t.id for t in trials if t.status != 'COMPLETED']
+    pending = [t for t in trials if t.status != 'COMPLETED']
+    if end_loop_called:
+      # A trial whose evaluation was still going on (no done/skip call yet)
+      # when the loop was ended stays pending; one that was finished does not.
+      pending = [t for t in pending
+                 if any(f[4] == 'ok' for f in finish.get(t.dna.userdata.get('pid'), []))]
+      c['check:not-completed-after-end_loop'] += 1
     if pending:
-      bad('not-completed', 'quiescence', f'trials {pending} are not COMPLETED after all '
-          f'workers returned: {[(t.id, t.status) for t in trials]}')
+      bad('not-completed', 'quiescence' + rtag,
+          f'trials {[t.id for t in pending]} are not COMPLETED after all '
+          f'workers returned: {[(t.id, t.status) for t in trials]}; finish calls on them: '
+          f'{[(t.id, sorted(finish.get(t.dna.userdata.get("pid"), []))) for t in pending]}')
     c['check:counters'] += 1
     try:
       summary = ast.literal_eval(result.format(compact=True))
@@ -854,6 +988,12 @@ def check_session(sess, counters):
   for e in events:
     if e[2] == 'next-call':
       next_calls[e[1]].append(e[0])
+  for g in set(holds):
+    members = [w for w in range(cfg['workers']) if sess.group_label(w) == g]
+    if len(members) > 1:
+      c['groups_with_co-workers_checked'] += 1
+      if is_falsy_id(cfg['groups'][members[0]]):
+        c['groups_with_co-workers_and_falsy_id_checked'] += 1
   for g, hs in sorted(holds.items()):
     # The earliest-created "second" trial of the group decides (later splits
     # are consequences: the group's latest trial is no longer the held one).
@@ -885,7 +1025,9 @@ def check_session(sess, counters):
       sequential = not any(
           u[2] != v[2] and u[0] < v[1] and v[0] < u[1]
           for u, v in itertools.combinations(spans.values(), 2))
-      bad('group-split', 'sequential-next' if sequential else 'concurrent-next',
+      falsy = is_falsy_id(cfg['groups'][early[2]])
+      bad('group-split', ('sequential-next' if sequential else 'concurrent-next')
+          + ('@falsy-group-id' if falsy else ''),
           f'group {g}: worker {early[2]} held pending trial {by_pid[early[3]][0].id} during '
           f'stamps [{early[0]}, {early[1]}) and worker {late[2]} held the different pending '
           f'trial {by_pid[late[3]][0].id} during [{late[0]}, {late[1]}); the latter was created '
@@ -951,6 +1093,7 @@ def run_case(ctx, i):
   c['sessions_' + cfg['mode']] += 1
   c['sessions_' + cfg['start']] += 1
   c['sessions_algo_' + cfg['algorithm']] += 1
+  c['sessions_iterations_' + cfg.get('iterations', 'single')] += 1
   c['workers'] += cfg['workers']
   c['switches'] += run.switches
   c['schedule_points'] += run.points
@@ -960,7 +1103,7 @@ def run_case(ctx, i):
     c['sessions_outcome_' + run.outcome] += 1
     ctx.notes.setdefault('inconclusive_sessions', []).append(
         dict(index=i, shard=ctx.shard, outcome=run.outcome,
-             cfg={k: v for k, v in cfg.items() if k != 'plans'}))
+             cfg={k: v for k, v in cfg.items() if k not in ('plans', 'defers')}))
     return
   if cfg['mode'] == 'token':
     ctx.seen('interleavings', run.trace_hash)
@@ -1007,10 +1150,10 @@ def run_case(ctx, i):
   if windowed:
     if any(len(wdw) >= 3 for wdw in sess.wpolicy.windows) and info.get('trials', 0) >= 2:
       ctx.mark_nontrivial((run.trace_hash, window_fp, cfg['workers'],
-                           tuple(map(str, cfg['groups'])), cfg['n'], cfg['algorithm'],
+                           tuple(map(repr, cfg['groups'])), cfg['n'], cfg['algorithm'],
                            cfg['start']))
   elif cfg['mode'] == 'token' and run.switches >= 3 and info.get('trials', 0) >= 4:
-    ctx.mark_nontrivial((run.trace_hash, cfg['workers'], tuple(map(str, cfg['groups'])),
+    ctx.mark_nontrivial((run.trace_hash, cfg['workers'], tuple(map(repr, cfg['groups'])),
                          cfg['n'], cfg['algorithm'], cfg['start']))
   # Determinism of the schedule: the same configuration again gives the same
   # interleaving and the same history (what makes a witness replayable).
@@ -1026,7 +1169,7 @@ def run_case(ctx, i):
       c['replay_different'] += 1
       ctx.notes.setdefault('replay_different', []).append(dict(index=i, shard=ctx.shard))
   if i < 2 or p['cases'] <= i < p['cases'] + 2:
-    ctx.sample(dict(config={k: v for k, v in cfg.items() if k != 'plans'},
+    ctx.sample(dict(config={k: v for k, v in cfg.items() if k not in ('plans', 'defers')},
                     plan_worker0=cfg['plans'][0][:8], switches=run.switches,
                     points=run.points, trace_hash=run.trace_hash,
                     first_switches=[list(t[:3]) + [list(t[3])] for t in run.trace[:8]],
@@ -1147,7 +1290,9 @@ def main(argv):
     cfg = gen_config(rng, 'free' if free else 'token')
   sess = Session(cfg, f'c16-main-{tier}-{seed}-{shard}-{index}', p['watchdog_s'])
   run = sess.execute()
-  print('config:', {k: v for k, v in cfg.items() if k != 'plans'})
+  print('config:', {k: v for k, v in cfg.items() if k not in ('plans', 'defers')})
+  if cfg.get('defers'):
+    print('defers of worker 0:', cfg['defers'][0][:8])
   print('run:', run)
   counters = collections.Counter()
   problems, _ = check_session(sess, counters)
